@@ -101,7 +101,7 @@ fn violation(rep: &mut Report, which: Which, args: &Args, i: u64, what: &str, p:
 
 pub fn run(args: &Args, rep: &mut Report, which: Which) {
     let thorough = args.tier_thorough;
-    let n = args.get_u64("n", if thorough { 3200 } else { 160 });
+    let n = args.get_u64("n", if thorough { 2000 } else { 160 });
     let scratch = args.get("scratch").unwrap_or("/tmp").to_string();
     let ragc = args.get("ragc").map(|s| s.to_string());
     let dir = format!("{}/rt-{}-{}", scratch, std::process::id(), args.shard);
